@@ -80,8 +80,10 @@ func (ft *ftr) run() error {
 	for _, c := range ft.cells {
 		lt, _ := c.leanTy()
 		ft.declare(c.name, lt)
-		if c.root.param >= 0 {
+		if c.root.param >= 0 || c.root.param == -2 {
 			cur[c] = ref(c.name)
+		} else if c.bigVal {
+			cur[c] = lit("(0 : Int)")
 		} else if c.threaded {
 			z, err := zeroOf(c.ty)
 			if err != nil {
@@ -177,6 +179,13 @@ func (ft *ftr) valOf(at ssa.Instruction, v ssa.Value) (value, error) {
 		return value{}, ft.refuse(at, "function value %s used as data (dynamic call / closure)", v.Name())
 	}
 	if x, ok := ft.env[v]; ok {
+		if x.bcell != nil {
+			e, ok := ft.curNow[x.bcell]
+			if !ok {
+				return value{}, ft.refuse(at, "internal: no current value for the big.Int cell %s", x.bcell.name)
+			}
+			x.e = e
+		}
 		if x.k == kind(-1) {
 			return value{}, ft.refuse(at, "parameter %s has unsupported type %s", v.Name(), v.Type())
 		}
@@ -244,6 +253,7 @@ func (ft *ftr) block(b *ssa.BasicBlock, cur map[*cell]ex) (node, error) {
 	var steps []step
 	var term node
 	for _, ins := range b.Instrs {
+		ft.curNow = cur
 		switch ins := ins.(type) {
 		case *ssa.Phi, *ssa.DebugRef:
 			continue
@@ -334,6 +344,7 @@ func (ft *ftr) edge(b *ssa.BasicBlock, k int, cur map[*cell]ex) (node, error) {
 	if err != nil {
 		return nil, err
 	}
+	ft.curNow = cur // translating the join block moved the memory state: back to the state at this edge
 	occ := 0
 	for i := 0; i < k; i++ {
 		if b.Succs[i] == s {
@@ -435,7 +446,7 @@ func (ft *ftr) joinCells(s *ssa.BasicBlock) []*cell {
 		if !c.threaded {
 			continue
 		}
-		if c.root.param >= 0 || ft.reach[s][c.root] {
+		if c.root.param >= 0 || c.bigVal || ft.reach[s][c.root] {
 			r = append(r, c)
 		}
 	}
@@ -482,7 +493,7 @@ func (ft *ftr) join(s *ssa.BasicBlock) (*joinDef, error) {
 	}
 	cur := map[*cell]ex{}
 	for _, c := range ft.cells { // read-only parameter cells keep their entry value everywhere
-		if c.root.param >= 0 && !c.threaded {
+		if (c.root.param >= 0 || c.root.param == -2) && !c.threaded {
 			cur[c] = ref(c.name)
 		}
 	}
@@ -528,6 +539,12 @@ func (ft *ftr) finish(body node) error {
 	sort.Slice(ext, func(i, j int) bool { return ext[i].name < ext[j].name })
 	sort.Slice(glob, func(i, j int) bool { return glob[i].name < glob[j].name })
 	fi.slots = append(append(fi.slots, ext...), glob...)
+	for _, c := range ft.cells {
+		if c.root.param == -2 {
+			lt, _ := c.leanTy()
+			fi.slots = append(fi.slots, slot{kind: sGlobalCell, name: c.name, ty: lt, g: c.root.g, param: -1, path: c.path, goTy: c.ty})
+		}
+	}
 	for i := range ft.f.Params {
 		for _, s := range ft.paramSlots {
 			if s.param == i {
